@@ -96,7 +96,21 @@ pub fn parse_run(s: &str) -> Value {
                                         }
                                     }
                                     // fused: further calls keep returning None
-                                    let fused = u.next().is_none() && u.next().is_none();
+                                    let mut fused = u.next().is_none() && u.next().is_none();
+                                    // the other ways of driving the iterator agree with repeated next(), also on
+                                    // a clone taken half-way
+                                    if k <= budget {
+                                        let n = out.chars().count();
+                                        let (lo, hi) = unq.size_hint();
+                                        fused &= lo <= n && hi.map(|h| h >= n).unwrap_or(true);
+                                        fused &= unq.clone().count() == n && unq.clone().last() == out.chars().last();
+                                        fused &= unq.clone().nth(n / 2) == out.chars().nth(n / 2);
+                                        fused &= unq.clone().fold(String::new(), |mut a, c| { a.push(c); a }) == out;
+                                        let mut half = unq.clone();
+                                        for _ in 0..n / 2 { half.next(); }
+                                        let rest: String = half.clone().collect();
+                                        fused &= rest == out.chars().skip(n / 2).collect::<String>();
+                                    }
                                     (out, k > budget, fused)
                                 });
                                 let disp = guarded(|| unq.to_string());
